@@ -6,4 +6,13 @@ for f in sorted(glob.glob('/verif/evidence/*.json')):
         jsonschema.validate(json.load(open(f)), s)
     except Exception as e:
         print('INVALID', f, str(e)[:300]); 
+man={c['property_id']:c for c in json.load(open('/verif/MANIFEST.json'))['checks']}
+import os
+for pid,c in man.items():
+    f=c['evidence_file']
+    if not os.path.exists(f):
+        print('MISSING', f); continue
+    ev=json.load(open(f))
+    if ev['level']!=c['level_claimed']['category'] or ev['property_id']!=pid:
+        print('LEVEL-MISMATCH', f, ev['level'], c['level_claimed']['category'])
 print('validated')
